@@ -1,1 +1,246 @@
-import GeoModel
+/-
+  Property C06: Parse → JSON → Parse is a lossless fixpoint, on the AST.
+
+  No text parser is modelled: the text a writer produces is identified with an AST `v` it denotes,
+  via `Written x v` (GeoProofs.WriteLemmas) and `render_writeV : Written x v → write x = some v.render`;
+  that a JSON decoder inverts `render` on token-well-formed ASTs is the decoder contract
+  (`Written x v → v.TokOK` is proved: `written_tokOK`).
+
+  `Written` is a RELATION (not a function `writeV`): `Extra.members`/`Extra.values` are texts, the
+  ASTs they denote are chosen existentially; the reparse theorems construct the witness from the
+  parsed document (foreign members = `(scanKeys ms).foreign`; number nodes
+  `.num true val canon (kf canon) canon`, for ANY interpretation `vf`/`kf` of z/m values and ×1000
+  texts — `parse` of a written document does not look at them).
+
+  STATUS (see the report): the full `reparse_ok` is proved here for documents of type Point
+  (`reparse_ok_partial`) and LineString (`reparse_ok_partial_lineString`), with plain equality
+  `x' = x`; for LineString / Polygon the
+  coordinate-level round trips (`lineCoords_roundtrip`, `polyCoords_roundtrip`, incl. the z/m table
+  and the Rect re-detection `isRectRing_rectRing`) are proved, the Feature parser is characterised
+  (`featureOf_cases`) — the assembly of these into the per-type cases of `reparse_ok` for
+  Polygon, Multi*, collections and Feature is NOT finished.
+-/
+import GeoProofs.ReparseLemmas
+
+namespace Geo
+
+/-- the text is the rendering of that AST -/
+theorem render_writeV (x : Obj) (v : JVal) (h : Written x v) : write x = some v.render := h.render.1
+
+/-- and the AST is token-well-formed (so the decoder contract applies to it) -/
+theorem written_tokOK (x : Obj) (v : JVal) (h : Written x v) : v.TokOK := h.render.2
+
+/-! ### reparse: Point documents -/
+
+/-- Parse → write → Parse for a document of type Point (`.point` or, under AllowSimplePoints,
+    `.spoint`): the written document has the AST `v`; it is accepted again under the same options
+    with ANY fuel ≥ 1 (in particular `v.depth + 1`), and the result is EQUAL to `x` (hence same
+    kind, byte-identical output). `vf`/`kf`: arbitrary decoder interpretations of z/m values
+    and ×1000 texts. -/
+theorem reparse_ok_partial (vf : String → Rat) (kf : String → String) (o : POpts) (n : Nat)
+    (ms : List Member) (r : String) (x : Obj)
+    (hp : parse o (n + 1) (.obj ms) = .ok x) (hty : (scanKeys ms).type = some (.str r "Point"))
+    (hfin : AllFin x) (hdoc : (JVal.obj ms).DocOK) :
+    ∃ v, Written x v ∧ ∃ x', parse o (v.depth + 1) v = .ok x' ∧ kindEq x x' ∧ write x' = write x ∧
+      x' = x := by
+  rw [parse_obj_str o n ms r "Point" hty, parseTyped_Point] at hp
+  simp only [JVal.DocOK] at hdoc
+  have hmem := scanKeys_mem JVal.DocOK ms (fun m hm => (docOKM_iff.mp hdoc m hm).2)
+  obtain ⟨v, hw, _, hre⟩ := reparse_point vf kf o n (scanKeys ms) x hp hmem.2.1 hdoc.foreign
+    (foreign_nonspecial ms) hfin
+  refine ⟨v, hw, x, hre _, ?_, rfl, rfl⟩
+  have := kindEq_addProps x
+  cases x <;> simp_all [kindEq, addProps]
+
+/-- the same for documents of type LineString (positions, z/m table, foreign members): `x' = x` -/
+theorem reparse_ok_partial_lineString (vf : String → Rat) (kf : String → String) (o : POpts) (n : Nat)
+    (ms : List Member) (r : String) (x : Obj)
+    (hp : parse o (n + 1) (.obj ms) = .ok x) (hty : (scanKeys ms).type = some (.str r "LineString"))
+    (hfin : AllFin x) (hdoc : (JVal.obj ms).DocOK) :
+    ∃ v, Written x v ∧ ∃ x', parse o (v.depth + 1) v = .ok x' ∧ kindEq x x' ∧ write x' = write x ∧
+      x' = x := by
+  rw [parse_obj_str o n ms r "LineString" hty, parseTyped_LineString] at hp
+  simp only [JVal.DocOK] at hdoc
+  have hmem := scanKeys_mem JVal.DocOK ms (fun m hm => (docOKM_iff.mp hdoc m hm).2)
+  obtain ⟨v, hw, hre⟩ := reparse_lineString vf kf o n (scanKeys ms) x hp hmem.2.1 hdoc.foreign
+    (foreign_nonspecial ms) hfin
+  refine ⟨v, hw, x, hre _, ?_, rfl, rfl⟩
+  have := kindEq_addProps x
+  cases x <;> simp_all [kindEq, addProps]
+
+/-- positions (exact x, y and canonical texts), extra values and foreign member text are
+    preserved: plain equality for Point documents -/
+theorem geometry_preserved (vf : String → Rat) (kf : String → String) (o : POpts) (n : Nat)
+    (ms : List Member) (r : String) (x : Obj)
+    (hp : parse o (n + 1) (.obj ms) = .ok x) (hty : (scanKeys ms).type = some (.str r "Point"))
+    (hfin : AllFin x) (hdoc : (JVal.obj ms).DocOK) :
+    ∃ v, Written x v ∧ parse o (v.depth + 1) v = .ok x := by
+  obtain ⟨v, hw, x', hre, _, _, rfl⟩ := reparse_ok_partial vf kf o n ms r x hp hty hfin hdoc
+  exact ⟨v, hw, hre⟩
+
+/-! ### coordinate-level round trips for LineString / Polygon coordinates -/
+
+/-- the positions and the z/m table of a LineString (or a MultiLineString child) survive
+    write → parse: the written coordinates `c` are an AST of what `writeSeries` emits
+    (for the object's final `extra` = `withMembers ex k`) and parse back to the same
+    positions and the same `extra` -/
+theorem lineCoords_roundtrip (vf : String → Rat) (kf : String → String) (rc : JVal) (ps : List Pos)
+    (ex : Option Extra) (k : Keys) (h : parseLineCoords rc = .ok (ps, ex)) (hd : rc.DocOK)
+    (hfin : ∀ p ∈ ps, p.fin = true) (hex : ExFin ex) :
+    SeriesV (withMembers ex k) ps 0 (seriesNodes vf kf ex ps 0) ∧
+      parseLineCoords (.arr (seriesNodes vf kf ex ps 0)) = .ok (ps, ex) := by
+  obtain ⟨hT, htok⟩ := parseLineCoords_fwd h hd hex
+  exact ⟨seriesV_nodes vf kf hT (extrasAt_withMembers ex k) ps 0
+      (fun p hp => ⟨hfin p hp, htok p hp⟩) (by omega),
+    parseLineCoords_nodes vf kf hT hfin⟩
+
+/-- same for the rings of a Polygon (or a MultiPolygon child) with non-empty rings -/
+theorem polyCoords_roundtrip (vf : String → Rat) (kf : String → String) (rc : JVal)
+    (rings : List (List Pos)) (ex : Option Extra) (k : Keys)
+    (h : parsePolyCoords rc = .ok (rings, ex)) (hd : rc.DocOK)
+    (hfin : ∀ r ∈ rings, r ≠ [] ∧ ∀ p ∈ r, p.fin = true) (hex : ExFin ex) :
+    RingsV (withMembers ex k) rings 0 (ringsNodes vf kf ex rings 0) ∧
+      parsePolyCoords (.arr (ringsNodes vf kf ex rings 0)) = .ok (rings, ex) := by
+  obtain ⟨hT, htok⟩ := parsePolyCoords_fwd h hd hex
+  exact ⟨ringsV_nodes vf kf hT (extrasAt_withMembers ex k) rings 0
+      (fun r hr p hp => ⟨(hfin r hr).2 p hp, htok r hr p hp⟩) (by omega),
+    parsePolyCoords_nodes vf kf hT hfin⟩
+
+/-! ### Feature: the `properties` member -/
+
+/-- the document written for a parsed Feature contains a `"properties"` member (either from
+    the foreign members or the appended `"properties":{}`): the members `fm` written after
+    `"geometry"` contain one, for every AST `vb` of the geometry -/
+theorem feature_has_properties (o : POpts) (n : Nat) (ms : List Member) (r : String) (b : Obj)
+    (ex : Option Extra) (hp : parse o (n + 1) (.obj ms) = .ok (.feature b ex))
+    (hty : (scanKeys ms).type = some (.str r "Feature")) (hdoc : (JVal.obj ms).DocOK) :
+    ∃ fm, fm.any (fun m => m.2.1 == "properties") = true ∧
+      ∀ vb, Written b vb →
+        Written (.feature b ex) (mkObj "Feature" "geometry" vb fm) ∧
+        write (.feature b ex) = some (mkObj "Feature" "geometry" vb fm).render ∧
+        ((mkObj "Feature" "geometry" vb fm).get "properties").isSome = true := by
+  rw [parse_obj_str o n ms r "Feature" hty, parseTyped_Feature, parseFeatureK_eq] at hp
+  simp only [JVal.DocOK] at hdoc
+  cases hg : (scanKeys ms).geometry with
+  | none => simp [hg] at hp
+  | some g =>
+    simp only [hg] at hp
+    cases hb : parse o n g with
+    | error e => simp [hb] at hp
+    | ok base =>
+      simp only [hb] at hp
+      rcases featureOf_cases hp hdoc.foreign with ⟨hx, _⟩ | ⟨c, m, hx, _⟩
+      · simp only [Obj.feature.injEq] at hx
+        obtain ⟨rfl, rfl⟩ := hx
+        refine ⟨featFm (scanKeys ms), featFm_hasProps _, ?_⟩
+        intro vb hvb
+        have hW : Written (.feature b (withMembers none (scanKeys ms)))
+            (mkObj "Feature" "geometry" vb (featFm (scanKeys ms))) :=
+          ⟨vb, _, hvb, membersV_feature hdoc.foreign, rfl⟩
+        refine ⟨hW, hW.render.1, ?_⟩
+        have hany := featFm_hasProps (scanKeys ms)
+        simp only [List.any_eq_true] at hany
+        obtain ⟨m, hm, hk⟩ := hany
+        simp only [mkObj, JVal.get, Option.isSome_map, List.find?_isSome]
+        exact ⟨m, by simp [hm], hk⟩
+      · cases hx
+
+/-- for a parsed Feature (not a Circle) the top-level `members` text is the render of the foreign
+    members of the document in their original order (`scanKeys`: the members whose key is not
+    one of type/coordinates/geometries/geometry/features), minified; "" when there are none -/
+theorem members_preserved_partial (o : POpts) (n : Nat) (ms : List Member) (r : String) (b : Obj)
+    (ex : Option Extra) (hp : parse o (n + 1) (.obj ms) = .ok (.feature b ex))
+    (hty : (scanKeys ms).type = some (.str r "Feature")) (hdoc : (JVal.obj ms).DocOK) :
+    exMembers' ex = (scanKeys ms).members ∧
+    (scanKeys ms).foreign = ms.filter (fun m => !isSpecialKey m.2.1) ∧
+    (scanKeys ms).members = (if (scanKeys ms).foreign.isEmpty then ""
+      else (JVal.obj (scanKeys ms).foreign).render) := by
+  rw [parse_obj_str o n ms r "Feature" hty, parseTyped_Feature, parseFeatureK_eq] at hp
+  simp only [JVal.DocOK] at hdoc
+  refine ⟨?_, scanKeys_foreign ms, by simp [Keys.members, JVal.render]⟩
+  cases hg : (scanKeys ms).geometry with
+  | none => simp [hg] at hp
+  | some g =>
+    simp only [hg] at hp
+    cases hb : parse o n g with
+    | error e => simp [hb] at hp
+    | ok base =>
+      simp only [hb] at hp
+      rcases featureOf_cases hp hdoc.foreign with ⟨hx, _⟩ | ⟨c, m, hx, _⟩
+      · simp only [Obj.feature.injEq] at hx
+        obtain ⟨rfl, rfl⟩ := hx
+        exact withMembers_members _ rfl
+      · cases hx
+
+/-- a ring detected as a Rect is written (`rectRing lo hi`) as a 5-point ring that is detected as
+    a Rect again, with the same corners -/
+theorem isRectRing_rectRing (p0 p1 p2 p3 p4 : Pos) (h : isRectRing [p0, p1, p2, p3, p4] = true) :
+    isRectRing (rectRing p0 p2) = true ∧
+      (∃ q1 q3 q4, rectRing p0 p2 = [p0, q1, p2, q3, q4]) := by
+  simp only [isRectRing, Bool.and_eq_true, decide_eq_true_eq] at h
+  obtain ⟨⟨⟨⟨⟨⟨⟨⟨⟨⟨⟨⟨f0, f1⟩, f2⟩, f3⟩, f4⟩, h1⟩, h2⟩, h3⟩, h4⟩, h5⟩, h6⟩, h7⟩, h8⟩ := h
+  have hx : p0.p.x < p2.p.x := h3 ▸ h1
+  have hy : p0.p.y < p2.p.y := h2 ▸ h4
+  refine ⟨?_, ?_⟩
+  · simp only [isRectRing, rectRing, Bool.and_eq_true, decide_eq_true_eq, f0, f2, Bool.and_self]
+    simp only [GT.gt, hx, hy, and_self]
+  · obtain ⟨⟨x0, y0⟩, g0, xs0, ys0⟩ := p0
+    obtain ⟨⟨x2, y2⟩, g2, xs2, ys2⟩ := p2
+    simp only at f0 f2
+    subst f0 f2
+    exact ⟨_, _, _, rfl⟩
+
+/-! ### non-vacuity: a concrete Feature with foreign members -/
+
+section Example
+
+def exNum (v : Rat) (t : String) : JVal := .num true v t t t
+
+/-- `{"id":7,"type":"Feature","geometry":{"type":"Point","coordinates":[1.5,-2,10]},"tags":[true]}` -/
+def exDoc : JVal :=
+  .obj [mem "id" (exNum 7 "7"), mem "type" (strV "Feature"),
+    mem "geometry" (.obj [mem "type" (strV "Point"),
+      mem "coordinates" (.arr [exNum (3/2) "1.5", exNum (-2) "-2", exNum 10 "10"])]),
+    mem "tags" (.arr [.tru])]
+
+/-- the document written for it: foreign members in document order, `"properties":{}` appended -/
+def exWritten : String :=
+  "{\"type\":\"Feature\",\"geometry\":{\"type\":\"Point\",\"coordinates\":[1.5,-2,10]},\"id\":7,\"tags\":[true],\"properties\":{}}"
+
+/-- the AST of the written document -/
+def exDoc' : JVal :=
+  .obj [mem "type" (strV "Feature"),
+    mem "geometry" (.obj [mem "type" (strV "Point"),
+      mem "coordinates" (.arr [exNum (3/2) "1.5", exNum (-2) "-2", exNum 10 "10"])]),
+    mem "id" (exNum 7 "7"), mem "tags" (.arr [.tru]), mem "properties" (.obj [])]
+
+def writeOf (r : Except PErr Obj) : Option String :=
+  match r with
+  | .ok x => write x
+  | .error _ => none
+
+/-- info: true -/
+#guard_msgs in
+#eval writeOf (parseTop {} exDoc) == some exWritten
+/-- info: true -/
+#guard_msgs in
+#eval exDoc'.render == exWritten
+-- fixpoint after one step
+/-- info: true -/
+#guard_msgs in
+#eval writeOf (parseTop {} exDoc') == some exWritten
+
+end Example
+
+end Geo
+
+#print axioms Geo.render_writeV
+#print axioms Geo.written_tokOK
+#print axioms Geo.reparse_ok_partial
+#print axioms Geo.reparse_ok_partial_lineString
+#print axioms Geo.geometry_preserved
+#print axioms Geo.lineCoords_roundtrip
+#print axioms Geo.polyCoords_roundtrip
+#print axioms Geo.feature_has_properties
+#print axioms Geo.members_preserved_partial
+#print axioms Geo.isRectRing_rectRing
